@@ -113,7 +113,12 @@ pub struct Case {
 ///   next request: on path B a request with trailers declares no length;
 /// * `response-trailer-elided`: response trailers named x-real-ip, x-forwarded-for, forwarded, x-request-id are
 ///   removed (pkawa.rs:1409, meant for requests): h2c response trailers do not use these names.
-pub const KNOWN: [&str; 3] = ["h1-keepalive-second-request-fails", "h2-trailers-after-content-length-reach-h1-backend", "response-trailer-elided"];
+/// * `correlation-header-via-h2-trailer`: an HTTP/2 request trailer named like the listener's correlation header
+///   reaches the backend (pkawa.rs:1409 elides four names, the HTTP/1.1 path in mux/h1.rs elides this one too): an
+///   HTTP/2 client's trailers do not use that name;
+/// * `response-content-length-0-then-trailers-stalls`: an h2c response `content-length: 0`, HEADERS without
+///   END_STREAM, then trailers never completes toward the client: such a response declares no length.
+pub const KNOWN: [&str; 5] = ["h1-keepalive-second-request-fails", "h2-trailers-after-content-length-reach-h1-backend", "response-trailer-elided", "correlation-header-via-h2-trailer", "response-content-length-0-then-trailers-stalls"];
 const ELIDED_TRAILER_NAMES: &[&str] = &["x-real-ip", "x-forwarded-for", "forwarded", "x-request-id"];
 
 impl Case {
@@ -164,7 +169,7 @@ fn request_header() -> BoxedStrategy<(String, String, u32)> {
 }
 
 fn trailer_field() -> BoxedStrategy<(String, String, u32)> {
-    prop_oneof![3 => c13::name_value(TRAILER_NAMES), 1 => special_field().prop_map(|(_, v, m)| ("X-T2".to_string(), v, m)), 2 => c13::name_value(c13::MANAGED)].boxed()
+    prop_oneof![3 => c13::name_value(TRAILER_NAMES), 1 => special_field().prop_map(|(_, v, m)| ("X-T2".to_string(), v, m)), 3 => c13::name_value(c13::MANAGED)].boxed()
 }
 
 fn forbidden() -> impl Strategy<Value = (u32, u32, u32)> {
@@ -248,7 +253,13 @@ fn build_case(p: u32, alt_listener: bool, concurrent: bool, split_cookies: bool,
                 total += n.len() + v.len() + 4;
                 total < 9000
             });
-            let trailers: Vec<Hdr> = if body { c13::resolve(trailers, cfg, 0, true).into_iter().map(|(n, v)| (n, ascii_trimmed(&v))).filter(|(_, v)| v.len() < 600).collect() } else { vec![] };
+            let mut trailers: Vec<Hdr> = if body { c13::resolve(trailers, cfg, 0, true).into_iter().map(|(n, v)| (n, ascii_trimmed(&v))).filter(|(_, v)| v.len() < 600).collect() } else { vec![] };
+            if client_h2 {
+                // known finding (KNOWN[3])
+                let before = trailers.len();
+                trailers.retain(|(n, _)| !n.eq_ignore_ascii_case(cfg.corr));
+                excluded += (before - trailers.len()) as u32;
+            }
             // an HTTP/1.1 message carries trailers only with the chunked coding
             let declare_length = if !client_h2 && !trailers.is_empty() { false } else { declare_length };
             // known finding (KNOWN[1]): content-length + trailers toward an HTTP/1.1 backend
@@ -275,6 +286,13 @@ fn build_case(p: u32, alt_listener: bool, concurrent: bool, split_cookies: bool,
             let before = rtrailers.len();
             rtrailers.retain(|(n, _)| !ELIDED_TRAILER_NAMES.contains(&n.to_ascii_lowercase().as_str()));
             excluded += (before - rtrailers.len()) as u32;
+            // known finding (KNOWN[4])
+            let rdeclare = if backend_h2 && rdeclare && !rtrailers.is_empty() && (rlen == 0 || bodiless) {
+                excluded += 1;
+                false
+            } else {
+                rdeclare
+            };
             let forbidden = forb.map(|f| make_forbidden(client_h2, f));
             any_forbidden |= forbidden.is_some();
             Req {
@@ -673,8 +691,15 @@ fn run_h2_client(pl: &PathLab, case: &Case, host: &str, base: usize, peers: &mut
         if !case.concurrent || i + 1 == case.reqs.len() {
             let ids: Vec<u32> = pending.iter().map(|p| p.1).collect();
             pump(&mut h.c, &ids, Instant::now() + Duration::from_secs(6));
+            let mut refused = false;
             for (j, id) in pending.drain(..) {
                 out[j].got = collect(&h.c, id);
+                refused |= !matches!(&out[j].got, Got::Response(m, _) if !m.values("x-lab-resp").is_empty());
+            }
+            if refused {
+                // what this client still had in flight on the refused stream may cost the connection: the next request gets a new one
+                let _ = h.c.send(&Frame::goaway(0, h2::NO_ERROR));
+                cl = None;
             }
         }
     }
@@ -718,6 +743,10 @@ pub fn scenario(pl: &mut PathLab, case: &Case) -> CheckResult {
                 Some(KNOWN[1])
             } else if case.reqs.iter().any(|r| r.resp.trailers.iter().any(|(n, _)| ELIDED_TRAILER_NAMES.contains(&n.to_ascii_lowercase().as_str()))) && is(&["response-trailer-changed"]) {
                 Some(KNOWN[2])
+            } else if case.client_h2() && case.reqs.iter().any(|r| r.trailers.iter().any(|(n, _)| n.eq_ignore_ascii_case(case.cfg().corr))) && is(&["proxy-metadata-via-trailer"]) {
+                Some(KNOWN[3])
+            } else if case.path() == 2 && case.reqs.iter().any(|r| r.resp.declare_length && r.resp.body_len == 0 && !r.resp.trailers.is_empty()) && is(&["refused-but-forwarded", "no-response"]) {
+                Some(KNOWN[4])
             } else {
                 None
             };
@@ -885,6 +914,15 @@ fn scenario_inner(pl: &mut PathLab, case: &Case) -> CheckResult {
             rep.class("h2_trailers_after_declared_length_not_deliverable_to_h1");
             sent.trailers.clear();
         }
+        if case.backend_h2() {
+            // TE crosses into HTTP/2 only as "trailers" (judged above): the h1h1 rule "hop-by-hop fields arrive intact or not at all" does not fit it
+            let te_sent: Vec<&[u8]> = sent.values("te");
+            if !got_req.values("te").is_empty() && !c13::has_token(&te_sent, b"trailers") {
+                fail!(sig("te-invented", path), "{}: the h2c backend received te: trailers, the client sent TE {:?}", describe_req(), te_sent.iter().map(|v| lossy(v)).collect::<Vec<_>>());
+            }
+            sent.headers.retain(|(k, _)| !k.eq_ignore_ascii_case(b"te"));
+            got_req.headers.retain(|(k, _)| !k.eq_ignore_ascii_case(b"te"));
+        }
         let cx = Ctx { cfg, peer, cluster: 0, i, sticky_seen: false, proto: if case.client_h2() { "https" } else { "http" } };
         c13::check_request(&cx, &sent, &got_req).map_err(|f| resig(f, path))?;
         let backend_corr = got_req.values(&corr_lc).first().map(|v| v.to_vec()).unwrap_or_default();
@@ -978,7 +1016,7 @@ pub fn describe(ev: &mut Evidence) {
     for p in PATHS {
         ev.floor(SUB, p, 0.25);
     }
-    for (class, frac) in [("value_with_htab", 0.2), ("duplicate_name", 0.3), ("trailers", 0.2), ("cookies_2+_fields", 0.15), ("trailer_with_protected_name", 0.08), ("h1_client_connection_header", 0.08), ("response_trailers", 0.03), ("h2_streams_concurrent", 0.1)] {
+    for (class, frac) in [("value_with_htab", 0.2), ("duplicate_name", 0.3), ("trailers", 0.2), ("cookies_2+_fields", 0.15), ("trailer_with_protected_name", 0.06), ("h1_client_connection_header", 0.08), ("response_trailers", 0.03), ("h2_streams_concurrent", 0.1)] {
         ev.floor(SUB, class, frac);
     }
 }
